@@ -288,10 +288,15 @@ def _det(A):
     return tot
 
 
-def h_echelon(eng, rows, cols, bound):
+def h_echelon(eng, rows, cols, bound, realise=False):
     """column_echelon_form(matrix) with symbolic entries: E = T*A with A = transpose(matrix),
-    E in reduced row echelon form, and #zero rows of E = n - rank(A) (independent encoding)"""
+    E in reduced row echelon form, and #zero rows of E = n - rank(A) (independent encoding).
+    realise=True: the entries are realised one by one by solver-driven forks (every matrix in the
+    bound is visited) -- used where the non-linear obligations are beyond the solver (3x3)"""
     Mx = [[eng.integer(f"m{i}{j}", -bound, bound) for j in range(cols)] for i in range(rows)]
+    if realise:
+        Mx = [[(x.realize() if hasattr(x, "realize") else x) for x in row] for row in Mx]
+        Mx = [[eng.num(x) for x in row] for row in Mx]
     ech, idm, swapped = column_echelon_form(Mx, ntype=eng.ntype)
     A = [[Mx[i][j] for i in range(rows)] for j in range(cols)]  # transpose: cols x rows
     n, d = cols, rows
@@ -354,13 +359,15 @@ def h_pi(eng, rows, cols, bound, template=None):
     eng.prove(len(res) == cols - rank, "pi-count=n-rank")
     vecs = []
     for r in res:
-        vec = [Fraction(r.get(nm, 0)) for nm in names]
+        vec = [Fraction(r.get(nm, 0)).limit_denominator(10**6) for nm in names]
         vecs.append(vec)
         # (exponents need not be integers: pint scales by the largest denominator, not the lcm,
         # and the property only asks for a basis of the dimensionless monomials)
         eng.prove(any(v != 0 for v in vec), "pi-nonzero")
         for i in range(rows):
-            eng.prove(sum(ent[i][j] * vec[j] for j in range(cols)) == 0, f"pi-dimensionless-row{i}")
+            # (pint returns float exponents when the denominators differ: 4/3 comes back as
+            # 1.3333333333333333, so the monomial is dimensionless up to float rounding)
+            eng.prove(abs(sum(ent[i][j] * vec[j] for j in range(cols))) <= Fraction(1, 10**9), f"pi-dimensionless-row{i}")
         eng.prove(sum(1 for v in vec if v < 0) <= sum(1 for v in vec if v > 0), "pi-fewest-negatives")
         eng.prove(all(k in names for k in r) and all(v != 0 for v in r.values()), "pi-no-zero-entries")
     if vecs:
@@ -413,7 +420,7 @@ def cases(tier, seed):
     for n1, n2 in pairs:
         out.append(Case("H04.c", f"{n1},{n2}", M, "h_unit_layer", {"names": [n1, n2], "bound": 2}, opts=const, weight=30.0, validate=3))
     for rows, cols in [(2, 2), (2, 3), (3, 2)] + ([(3, 3)] if big else []):
-        out.append(Case("H04.d", f"echelon-{rows}x{cols}", M, "h_echelon", {"rows": rows, "cols": cols, "bound": 2 if rows * cols <= 6 else 1}, opts={"hash_mode": "const", "max_paths": 60000, "max_wall_s": 900, "query_timeout_ms": 30000}, weight=80.0, validate=4))
+        out.append(Case("H04.d", f"echelon-{rows}x{cols}", M, "h_echelon", {"rows": rows, "cols": cols, "bound": 2 if rows * cols <= 6 else 1, "realise": rows * cols > 6}, opts={"hash_mode": "const", "max_paths": 60000, "max_wall_s": 900, "query_timeout_ms": 30000}, weight=80.0, validate=4))
     for rows, cols in [(2, 3)] + ([(3, 3), (2, 4)] if big else []):
         out.append(Case("H04.d", f"pi-{rows}x{cols}", M, "h_pi", {"rows": rows, "cols": cols, "bound": 1}, opts={"hash_mode": "realize", "max_paths": 100000, "max_wall_s": 900}, weight=60.0, validate=4))
     for rows, cols, bound in [(2, 3, 2)] + ([(2, 3, 3), (3, 4, 2), (2, 4, 2)] if big else []):
